@@ -496,6 +496,9 @@ pub fn all11() -> Vec<(&'static str, Dist)> {
 /// P-ALL11: a machine using distribution `d` in position `pos`
 /// (0 timeout, 1 duration, 2 limit, 3 counter value).
 pub fn all11_machine(pos: usize, d: Dist) -> Machine {
+    all11_machine_checked(pos, d).expect("family machine must validate")
+}
+pub fn all11_machine_checked(pos: usize, d: Dist) -> Result<Machine, maybenot::Error> {
     use Event::*;
     let b: Budget = (1000, 1.0, 1_000_000, 1.0);
     let tr: TransSpec<'_> = &[(NormalRecv, &[(1, 1.0)]), (NormalSent, &[(0, 1.0)]), (PaddingSent, &[(1, 1.0)]), (BlockingBegin, &[(1, 1.0)]), (LimitReached, &[(0, 1.0)]), (CounterZero, &[(0, 1.0)])];
@@ -505,7 +508,7 @@ pub fn all11_machine(pos: usize, d: Dist) -> Machine {
         2 => (Some(Action::SendPadding { bypass: false, replace: false, timeout: c(1.0), limit: Some(d) }), (None, None)),
         _ => (Some(pad(false, false, 1.0, None)), (Some(Counter::new_dist(Operation::Decrement, d)), Some(Counter::new_dist(Operation::Increment, d)))),
     };
-    mk(b, vec![st(tr, None, (Some(set(2.0)), None)), st(tr, a, ctr)])
+    Machine::new(b.0, b.1, b.2, b.3, vec![st(tr, None, (Some(set(2.0)), None)), st(tr, a, ctr)])
 }
 
 // ---------------------------------------------------------------------------
@@ -638,4 +641,52 @@ pub fn triples_strided(lib: &[(String, Machine)], fracs: &[(f64, f64)]) -> Vec<C
         ));
     }
     v
+}
+
+// ---------------------------------------------------------------------------
+// Corpus of larger generated machines (labelled *sampled*: it never decides a verdict alone)
+// ---------------------------------------------------------------------------
+/// A deterministic pseudo-random validated machine with `n` states built from the menus above:
+/// every state gets an action and a counter pair from the menus and 3-6 events with 1-2 targets each
+/// (regular states, END, SIGNAL) with dyadic probabilities.
+pub fn corpus_machine(seed: u64, n: usize) -> Machine {
+    use rand_core::{RngCore, SeedableRng};
+    let mut r = rand_xoshiro::Xoshiro256StarStar::seed_from_u64(seed);
+    let am = actions_menu();
+    let cm = counters_menu();
+    let events: Vec<Event> = Event::iter().cloned().collect();
+    loop {
+        let mut states = vec![];
+        for _ in 0..n {
+            let mut t: EnumMap<Event, Vec<Trans>> = enum_map! { _ => vec![] };
+            let k = 3 + (r.next_u32() % 4) as usize;
+            for _ in 0..k {
+                let e = events[(r.next_u32() as usize) % events.len()];
+                let pick = |r: &mut rand_xoshiro::Xoshiro256StarStar| -> usize {
+                    match r.next_u32() % 10 {
+                        0 => END,
+                        1 => SIG,
+                        _ => (r.next_u32() as usize) % n,
+                    }
+                };
+                let a = pick(&mut r);
+                let mut v = vec![Trans(a, [1.0, 0.5, 0.25][(r.next_u32() % 3) as usize])];
+                if v[0].1 < 1.0 && r.next_u32() % 2 == 0 {
+                    let b = pick(&mut r);
+                    if b != a {
+                        v.push(Trans(b, [0.5, 0.25][(r.next_u32() % 2) as usize]));
+                    }
+                }
+                t[e] = v;
+            }
+            states.push(st_map(t, am[(r.next_u32() as usize) % am.len()], cm[(r.next_u32() as usize) % cm.len()]));
+        }
+        let b = BUDGETS[(r.next_u32() as usize) % BUDGETS.len()];
+        if let Ok(m) = Machine::new(b.0, b.1, b.2, b.3, states) {
+            return m;
+        }
+    }
+}
+pub fn corpus(seed: u64, count: usize) -> Vec<(String, Machine)> {
+    (0..count).map(|i| { let n = 3 + i % 4; (format!("corpus[seed{seed},#{i},{n} states]"), corpus_machine(seed.wrapping_mul(1_000_003).wrapping_add(i as u64), n)) }).collect()
 }
